@@ -445,6 +445,9 @@ namespace occa {
 
       if (src && props.get("use_host_pointer", false)) {
         buf->wrapMemory(src, bytes);
+        // Still a malloc: it is accounted by the caller, so it has to be
+        // discounted (and, with own_host_pointer, freed) by ~buffer
+        buf->isWrapped = false;
       } else {
         buf->malloc(bytes);
       }
